@@ -193,7 +193,21 @@ func checkC09(r *harness.Run) harness.Coverage {
 			}
 		}
 	}
-	stp := conform(r, pairExprs, univ.Js(`{"a":1}`), conformOpts{})
+	// two calls of the same VARIADIC function with different argument counts in one expression, in both
+	// orders and nested (a signature padded for the wider call must not stick to the narrower one)
+	vargs := []string{"a", "b", "c", "a", "b"}
+	for _, fn := range []string{"not_null", "merge"} {
+		for k := 1; k <= 5; k++ {
+			for j := 1; j <= 5; j++ {
+				if k == j {
+					continue
+				}
+				ck, cj := fn+"("+strings.Join(vargs[:k], ", ")+")", fn+"("+strings.Join(vargs[:j], ", ")+")"
+				pairExprs = append(pairExprs, exprFromText("["+ck+", "+cj+"]"), exprFromText("{x: "+ck+", y: "+cj+"}"), exprFromText(ck+" && "+cj), exprFromText(fn+"("+ck+", "+cj+")"), exprFromText(ck+" | "+cj))
+			}
+		}
+	}
+	stp := conform(r, pairExprs, univ.Js(`{"a":1}`, `{"a":{"x":1},"b":{"y":2},"c":{"x":3}}`, `{"a":null,"b":{},"c":{"z":null}}`), conformOpts{})
 	total.add(stp)
 	nexpr += len(pairExprs)
 	// to_number over short strings: exact where pinned, weak oracle in the gap
@@ -212,6 +226,8 @@ func checkC09(r *harness.Run) harness.Coverage {
 			strs2 = append(strs2, s)
 		})
 	}
+	// JSON texts that are not numbers (a to_number built on a JSON decoder must not accept them)
+	strs2 = append(strs2, "null", "true", "false", "nul", "[]", "{}", "\"\"", "null ", " null", "NULL", "None", "nil")
 	strs2 = append(strs2, "Infinity", "-Infinity", "+Inf", "NaN", "1e400", "-1e400", "0x1p-2", "1_000", "१२", "1e5", "-0", "0.0", "1E+2", "1.5e-3", "9007199254740993")
 	jp, cerr, pn := impl.Compile("to_number(@)")
 	var tn, tnPinned int64
